@@ -326,6 +326,18 @@ fn assign_and_balance<const D: usize>(
     // compute the distances from each cluster center to the minimal
     // bounding rectangle of the set of points
     let obb = OrientedBoundingBox::from_points(points).unwrap();
+    #[cfg(feature = "coupe_verif")]
+    if crate::verif::trace_enabled() {
+        // the rotation matrix (images of the unit vectors, column by column), then the box
+        let mut m: Vec<u64> = Vec::with_capacity(D * D + 2 * D);
+        for j in 0..D {
+            let e = crate::geometry::canonical_vector::<D>(j);
+            m.extend(obb.obb_to_aabb(&e).iter().map(|c| c.to_bits()));
+        }
+        let aabb = obb.aabb();
+        m.extend(aabb.p_min.iter().chain(aabb.p_max.iter()).map(|c| c.to_bits()));
+        crate::verif::record("kmeans_obb", m);
+    }
     let distances_to_mbr = centers
         .par_iter()
         .zip(influences.par_iter())
@@ -379,6 +391,17 @@ fn assign_and_balance<const D: usize>(
                     }
                 }
             });
+        #[cfg(feature = "coupe_verif")]
+        if crate::verif::trace_enabled() {
+            crate::verif::record(
+                "kmeans_assign",
+                assignments.iter().map(|a| *a as u64).collect(),
+            );
+            crate::verif::record(
+                "kmeans_bounds",
+                lbs.iter().chain(ubs.iter()).map(|x| x.to_bits()).collect(),
+            );
+        }
 
         // Compute total weight for each cluster
         let new_weights = center_ids
@@ -420,6 +443,13 @@ fn assign_and_balance<const D: usize>(
                     *influence -= max_diff;
                 }
             });
+        #[cfg(feature = "coupe_verif")]
+        if crate::verif::trace_enabled() {
+            crate::verif::record(
+                "kmeans_influences",
+                influences.iter().map(|x| x.to_bits()).collect(),
+            );
+        }
 
         // Compute new centers from new assigments
         let new_centers = center_ids
